@@ -222,6 +222,77 @@ SERVER_PATTERNS = [
 ]
 
 
+HANDLE_PATTERNS = [
+    (r"keep_alive:\s*true", "keep_alive: true"),
+    (r"keep_alive:\s*false", "keep_alive: false"),
+    (r"headers\.is_connection_close\(\)", "close?"),
+    (r"self\.keep_alive\s*=\s*false", "keep_alive = false"),
+    (r"self\.keep_alive\s*=\s*true", "keep_alive = true"),
+    (r"HttpPrinter::write_response_bytes\(", "print bytes"),
+    (r"HttpPrinter::write_response_empty\(", "print empty"),
+    (r"HttpPrinter::write_response\(", "print reader"),
+    (r"HttpPrinter::write_100_continue\(", "print 100"),
+    (r"HttpPrinter::write_417_expectation_failed\(", "print 417"),
+    (r"self\.send0\(", "-> send0"),
+    (r"self\.sendr\(", "-> sendr"),
+    (r"self\.send\(", "-> send"),
+    (r"\breturn\b", "return"),
+    (r"\?", "?"),
+]
+HANDLE_METHODS = ["new", "ok", "send", "ok0", "send0", "okr", "sendr", "send_100_continue", "send_417_expectation_failed"]
+
+BODY_PATTERNS = [
+    (r"res\.is_err\(\)", "err?"),
+    (r"flag\.store\(\s*true", "flag = true"),
+    (r"Some\(flag\)\s*=\s*(?:self\.1|flag)", "flag set?"),
+    (r"matches!\(\s*self\.0\s*,\s*BodyEncoding::Eof\(_\)\s*\|\s*BodyEncoding::Empty\(_\)\s*\)", "eof|empty?"),
+    (r"self\.read\(&mut buf\)", "read"),
+    (r"Ok\(0\)\s*=>\s*break", "Ok(0) => break"),
+    (r"Ok\(_\)\s*=>\s*continue", "Ok(_) => continue"),
+    (r"Err\(_\)\s*=>\s*break", "Err(_) => break"),
+    (r"Ok\(\s*\w+\s*\)\s*if\b[^=]*=>", "Ok(n) if .. =>"),
+    (r"Err\(\s*\w+\s*\)\s*if\b[^=]*=>", "Err(e) if .. =>"),
+    (r"self\.note\(res\)", "note"),
+    (r"self\.drain\(\)", "drain"),
+    (r"headers\.is_transfer_encoding_chunked\(\)", "chunked?"),
+    (r"headers\.get_content_length\(\)", "cl?"),
+    (r"content_len\s*>\s*0", "cl > 0?"),
+    (r"Self::new_chunked\(", "new_chunked"),
+    (r"Self::new_fixed\(", "new_fixed"),
+    (r"Self::new_empty\(", "new_empty"),
+    (r"Self::new_eof\(", "new_eof"),
+    (r"\bloop\b", "loop"),
+    (r"\bmatch\b", "match"),
+    (r"\breturn\b", "return"),
+    (r"\bbreak\b", "break"),
+    (r"\bcontinue\b", "continue"),
+    (r"r\.read\(buf\)|c\.read\(buf\)", "inner read"),
+    (r"r\.fill_buf\(\)|c\.fill_buf\(\)", "inner fill_buf"),
+]
+
+
+def impl_block(src, header_rx, what):
+    m = re.search(header_rx, src)
+    if not m:
+        raise ExtractError(what)
+    i = m.end(); depth = 1
+    while depth and i < len(src):
+        if src[i] == '"':
+            j = i + 1
+            while src[j] != '"':
+                j += 2 if src[j] == "\\" else 1
+            i = j + 1; continue
+        if src[i] == "{": depth += 1
+        if src[i] == "}": depth -= 1
+        i += 1
+    return src[m.end():i - 1]
+
+
+def lean_assoc(name, pairs):
+    return (f"def {name} : List (String × List String) := [" +
+            ", ".join('("' + k + '", [' + ", ".join('"' + t.replace('"', "'") + '"' for t in v) + "])" for k, v in pairs) + "]")
+
+
 def lean_list(name, toks):
     return f"def {name} : List String := [" + ", ".join('"' + t.replace('"', "'") + '"' for t in toks) + "]"
 
@@ -252,6 +323,22 @@ def main():
     L.append(lean_list("serverHandleConnection", skeleton(fn_body(sv, "handle_connection"), SERVER_PATTERNS)))
     L.append(lean_list("serverServe", skeleton(fn_body(sv, "serve"), SERVER_PATTERNS)))
     L.append(lean_list("serverServeThreaded", skeleton(fn_body(sv, "serve_threaded"), SERVER_PATTERNS)))
+    # ResponseHandle: every sending method records the close token before it prints; ok* delegate to send*
+    rh = impl_block(sv, r"impl<'s>\s*ResponseHandle<'s>\s*\{", "impl ResponseHandle")
+    L.append(lean_assoc("handleSkeleton", [(mth, skeleton(fn_body(rh, mth), HANDLE_PATTERNS)) for mth in HANDLE_METHODS]))
+    # body_reader.rs: reader selection, failure flag, drop-drain
+    br = strip_hooks(strip_comments(open(os.path.join(REPO, "src/body_reader.rs")).read()))
+    rd = impl_block(br, r"impl<R: Read>\s*Read for BodyReader<'_, R>\s*\{", "impl Read for BodyReader")
+    bf = impl_block(br, r"impl<R: Read>\s*BufRead for BodyReader<'_, R>\s*\{", "impl BufRead for BodyReader")
+    dr = impl_block(br, r"impl<R: Read>\s*Drop for BodyReader<'_, R>\s*\{", "impl Drop for BodyReader")
+    L.append(lean_assoc("bodySkeleton", [
+        ("from_request", skeleton(fn_body(br, "from_request"), BODY_PATTERNS)),
+        ("note", skeleton(fn_body(br, "note"), BODY_PATTERNS)),
+        ("drain", skeleton(fn_body(br, "drain"), BODY_PATTERNS)),
+        ("read", skeleton(fn_body(rd, "read"), BODY_PATTERNS)),
+        ("fill_buf", skeleton(fn_body(bf, "fill_buf"), BODY_PATTERNS)),
+        ("drop", skeleton(fn_body(dr, "drop"), BODY_PATTERNS)),
+    ]))
     L.append("\nend Khttp.Gen\n")
     text = "\n".join(L)
     old = open(OUT).read() if os.path.exists(OUT) else None
